@@ -52,7 +52,7 @@ fn mask_beyond(m: &mut [u32], length: u32) {
     }
 }
 
-fn check_eea(c: &EC) -> CaseResult {
+pub fn check_eea(c: &EC) -> CaseResult {
     let key = arr16(&c.key);
     let m = c.words();
     let l = ((c.length as u64 + 31) / 32) as usize;
@@ -77,7 +77,7 @@ fn check_eea(c: &EC) -> CaseResult {
     pass(nontrivial(c, 0), format!("eea/{}", len_class(c.length)))
 }
 
-fn check_eia(c: &EC) -> CaseResult {
+pub fn check_eia(c: &EC) -> CaseResult {
     let key = arr16(&c.key);
     let m = c.words();
     let want = rzuc::eia3(&key, c.count, c.bearer, c.direction, c.length, &m);
